@@ -344,7 +344,7 @@ func (vc *VC) wfFacts(term string, t types.Type, depth int) []string {
 	case *types.Pointer, *types.Map, *types.Signature, *types.Chan:
 		return []string{"(>= " + term + " 0)"}
 	case *types.Slice:
-		return []string{fmt.Sprintf("(and (>= (sptr %s) 0) (>= (slen %s) 0) (<= (slen %s) (scap %s)) (=> (= (sptr %s) 0) (= (scap %s) 0)))", term, term, term, term, term, term)}
+		return []string{fmt.Sprintf("(and (>= (sptr %s) 0) (>= (slen %s) 0) (<= (slen %s) (scap %s)) (<= (scap %s) 9223372036854775807) (=> (= (sptr %s) 0) (= (scap %s) 0)))", term, term, term, term, term, term, term)}
 	case *types.Interface:
 		return []string{"(>= (atag " + term + ") 0)", fmt.Sprintf("(=> (= (atag %s) 0) (= %s nil_any))", term, term)}
 	case *types.Struct:
